@@ -3,6 +3,7 @@
   The analytic bound |coef·exp(c·p) − 440·2^((p−69)/12)·144·2^21/clock| is in OpnVerifReal/C10Real.lean (Mathlib).
 -/
 import OpnVerif.Model.Pitch
+import OpnVerif.Model.Synth
 
 namespace Opn.C10
 open Opn Opn.Pitch
@@ -252,5 +253,34 @@ theorem mulBytes_zero : ∀ (regs : List Nat), (∀ r ∈ regs, r < 256) → mul
 -- A4 = 440 Hz on OPN2: hertz·coef = 8.1758·2^(69/12)·39.37 = 17323.3…; a dyadic close to it
 example : (search ⟨17323 * 1024 + 337, 10⟩).toOption = some { ftone := 5 * 0x800 + 541, mulOffset := 0 } := by decide +kernel
 example : (⟨17323 * 1024 + 337, 10⟩ : Dy).n * 4 < 8147 * 2 ^ (10 + 7) := by decide
+
+
+/-! ## which voices a pitch-bend message re-pitches (the guard of noteUpdate's Upd_Pitch branch, `Synth.pitchApplies`) -/
+
+/-- **a key that is still down is re-pitched**: its chip-channel user carries no mark (0) or only the sostenuto mark (2) -/
+theorem bend_reaches_keydown (u : Synth.User) (h : u.sus = 0 ∨ u.sus = 2) : Synth.pitchApplies (some u) = true := by
+  rcases h with h | h <;> simp [Synth.pitchApplies, h]
+
+/-- a voice whose user entry does not exist yet (the note-on in progress) is pitched -/
+theorem bend_reaches_fresh : Synth.pitchApplies none = true := rfl
+
+/-- only a released note that the damper pedal holds (mark 1, or 3 together with sostenuto) is left alone -/
+theorem bend_skips_pedal_held (u : Synth.User) (h : u.sus = 1 ∨ u.sus = 3) : Synth.pitchApplies (some u) = false := by
+  rcases h with h | h <;> simp [Synth.pitchApplies, h]
+
+/-- **pressing the sostenuto pedal never takes a held key out of reach of the wheel**: every user that `markSostenutoNotes`
+    marks was key-down (no mark) and is still re-pitched afterwards -/
+theorem sostenuto_keeps_bend (midCh : Nat) (cc : Synth.ChipCh) (u : Synth.User) (hu : u ∈ (Synth.markSost midCh cc).users)
+    (hk : ∀ v ∈ cc.users, v.sus = 0 ∨ v.sus = 2) : Synth.pitchApplies (some u) = true := by
+  unfold Synth.markSost at hu
+  simp only [List.mem_map] at hu
+  obtain ⟨v, hv, e⟩ := hu
+  have hv' := hk v hv
+  subst e
+  split
+  · rename_i hc
+    simp only [Bool.and_eq_true, beq_iff_eq] at hc
+    simp [Synth.pitchApplies, hc.2]
+  · exact bend_reaches_keydown v hv'
 
 end Opn.C10
